@@ -15,6 +15,22 @@ is_fin, is_pinf, is_ninf = XR.is_fin, XR.is_pinf, XR.is_ninf
 
 I, R, B = z3.IntSort(), z3.RealSort(), z3.BoolSort()
 
+_OI = z3.Datatype("OptInt")          # an `int` local that may also hold None (max_b_node_ind = None)
+_OI.declare("onone")
+_OI.declare("osome", ("oval", I))
+OI = _OI.create()
+_OR = z3.Datatype("OptReal")         # a `real` parameter that may also be None (k=None, delta=None)
+_OR.declare("rnone")
+_OR.declare("rsome", ("rval", R))
+OR_ = _OR.create()
+
+
+def opt_dt(ty):
+    """(datatype, none, some, is_none, is_some, val) of an optional scalar type"""
+    if ty.k == "int":
+        return OI, OI.onone, OI.osome, OI.is_onone, OI.is_osome, OI.oval
+    return OR_, OR_.rnone, OR_.rsome, OR_.is_rnone, OR_.is_rsome, OR_.rval
+
 
 def xr_le(a, b):
     return z3.Or(is_ninf(a), is_pinf(b), z3.And(is_fin(a), is_fin(b), xval(a) <= xval(b)))
@@ -101,10 +117,12 @@ def use_rnl(u):
                                              z3.Implies(z3.And(a > 0, b > 0), RDIV(a, b) > 0),
                                              z3.Implies(z3.And(a <= 0, b > 0), RDIV(a, b) <= 0),
                                              z3.Implies(z3.And(a > b, b > 0), RDIV(a, b) > 1),
+                                             z3.Implies(z3.And(a >= b, b > 0), RDIV(a, b) >= 1),
                                              z3.Implies(z3.And(a == b, b != 0), RDIV(a, b) == 1)),
                               qid="rdiv-sign", patterns=[RDIV(a, b)]))
         u.bg.append(z3.ForAll([a, b], z3.And(z3.Implies(z3.And(a >= 0, b >= 0), RMUL(a, b) >= 0),
-                                             z3.Implies(z3.And(a > 0, b > 0), RMUL(a, b) > 0)),
+                                             z3.Implies(z3.And(a > 0, b > 0), RMUL(a, b) > 0),
+                                             z3.Implies(z3.And(a >= 1, b >= 1), RMUL(a, b) >= 1)),
                               qid="rmul-sign", patterns=[RMUL(a, b)]))
         u.bg.append(z3.ForAll([a], RMUL(a, a) >= 0, qid="rmul-square", patterns=[RMUL(a, a)]))
         u.bg.append(z3.ForAll([a], z3.And(RMUL(a, 0) == 0, RMUL(0, a) == 0, RMUL(a, 1) == a, RMUL(1, a) == a),
